@@ -4,7 +4,7 @@ set -e
 cd "$(dirname "$0")"
 mkdir -p gen _build
 (cd gen && coqc -Q ../../coq Crdt ../../coq/extract/Extract.v >/dev/null 2>&1)
-cp gen/model.ml gen/model.mli driver.ml monitors.ml main.ml _build/
+cp gen/model.ml gen/model.mli driver.ml known.ml monitors.ml main.ml _build/
 cd _build
-ocamlfind ocamlopt -O2 -w -a -o ../driver model.mli model.ml driver.ml monitors.ml main.ml 2>&1 || \
-ocamlfind ocamlopt -w -a -o ../driver model.mli model.ml driver.ml monitors.ml main.ml
+ocamlfind ocamlopt -O2 -w -a -o ../driver model.mli model.ml driver.ml known.ml monitors.ml main.ml 2>&1 || \
+ocamlfind ocamlopt -w -a -o ../driver model.mli model.ml driver.ml known.ml monitors.ml main.ml
